@@ -173,6 +173,13 @@ func init() {
 			return nil
 		},
 		"vStop": func(it *Interp, fn *ssa.Function, a []Value) Value { panic(pathEnd{"stop", "vStop"}) },
+		"vTag": func(it *Interp, fn *ssa.Function, a []Value) Value {
+			s, _ := a[0].(*StrV).concrete()
+			it.tags = append(it.tags, s)
+			return nil
+		},
+		"vRepeat":      func(it *Interp, fn *ssa.Function, a []Value) Value { return it.ctx.BV(1, 64) },
+		"vResetInputs": func(it *Interp, fn *ssa.Function, a []Value) Value { return nil },
 		"vSymbolic": func(it *Interp, fn *ssa.Function, a []Value) Value { return it.ctx.True },
 		"vRunPending": func(it *Interp, fn *ssa.Function, a []Value) Value {
 			want, _ := a[0].(*StrV).concrete()
@@ -1003,9 +1010,10 @@ func (it *Interp) mutexCell(v Value) *Cell {
 
 func mMutexLock(it *Interp, fn *ssa.Function, a []Value) Value {
 	c := it.mutexCell(a[0])
+	it.yield("lock")
 	if it.mutex[c] != 0 {
-		if it.sched != nil {
-			it.sched.blockOn(it, func() bool { return it.mutex[c] == 0 }, "mutex")
+		if it.threadsOn() {
+			it.block(func() bool { return it.mutex[c] == 0 }, "mutex")
 		} else {
 			panic(pathEnd{"blocked", "deadlock: Lock of a held mutex at " + it.site()})
 		}
@@ -1027,13 +1035,15 @@ func mMutexUnlock(it *Interp, fn *ssa.Function, a []Value) Value {
 		panic(&goPanic{msg: "sync: unlock of unlocked mutex", runtime: true, site: it.site()})
 	}
 	it.mutex[c] = 0
+	it.yield("unlock")
 	return nil
 }
 func mRLock(it *Interp, fn *ssa.Function, a []Value) Value {
 	c := it.mutexCell(a[0])
+	it.yield("rlock")
 	if it.mutex[c] == -1 {
-		if it.sched != nil {
-			it.sched.blockOn(it, func() bool { return it.mutex[c] != -1 }, "rwmutex")
+		if it.threadsOn() {
+			it.block(func() bool { return it.mutex[c] != -1 }, "rwmutex")
 		} else {
 			panic(pathEnd{"blocked", "deadlock: RLock of a write-held mutex at " + it.site()})
 		}
@@ -1047,6 +1057,7 @@ func mRUnlock(it *Interp, fn *ssa.Function, a []Value) Value {
 		panic(&goPanic{msg: "sync: RUnlock of unlocked RWMutex", runtime: true, site: it.site()})
 	}
 	it.mutex[c]--
+	it.yield("runlock")
 	return nil
 }
 func mOnceDo(it *Interp, fn *ssa.Function, a []Value) Value {
@@ -1075,8 +1086,8 @@ func mWGAdd(it *Interp, fn *ssa.Function, a []Value) Value {
 func mWGWait(it *Interp, fn *ssa.Function, a []Value) Value {
 	c := it.mutexCell(a[0])
 	if it.mutex[c] != 0 {
-		if it.sched != nil {
-			it.sched.blockOn(it, func() bool { return it.mutex[c] == 0 }, "waitgroup")
+		if it.threadsOn() {
+			it.block(func() bool { return it.mutex[c] == 0 }, "waitgroup")
 			return nil
 		}
 		// single-threaded: run pending goroutines to completion
